@@ -69,6 +69,7 @@ def main():
                         except Exception:
                             pass
                 elif c.returncode not in (0, 1):
+                    print(name, "CHECK-BROKEN", p, "rc=%d" % c.returncode)
                     res.setdefault("infra", []).append(p + ":" + c.stdout.strip()[-200:])
             res["caught_by"] = caught
             res["detected"] = prop in caught
@@ -77,7 +78,14 @@ def main():
                   res.get("detail", ""), res.get("replay_kind", ""))
         finally:
             sh("git -C /repo checkout -- .")
-    json.dump(results, open(os.path.join(ROOT, "seeded", "RESULTS.json"), "w"), indent=1)
+    rf = os.path.join(ROOT, "seeded", "RESULTS.json")
+    if [a for a in args if not a.startswith("--")] and os.path.exists(rf):
+        # a partial run updates the record of the changes it ran and keeps the others
+        merged = json.load(open(rf))
+        merged.update(results)
+        json.dump(dict(sorted(merged.items())), open(rf, "w"), indent=1)
+    else:
+        json.dump(results, open(rf, "w"), indent=1)
     missed = [n for n, r in results.items() if not r.get("detected")]
     print("seeded changes: %d, detected: %d, missed: %s" % (len(results), len(results) - len(missed), missed))
 
